@@ -1,2 +1,319 @@
-(* placeholder; theorems follow *)
-Require Import QV.C15.ModelBase.
+(* C15 — property theorems only.  Each is closed by [exact] of a lemma of Proofs*.v and followed by
+   Print Assumptions.  The statements are about the executable definitions of Model*.v, i.e. about
+   the very functions harness/c15.py evaluates against the real QMI code on every run. *)
+Require Import QV.C15.ModelBase QV.C15.ModelIB QV.C15.ModelUsbtmc QV.C15.ModelT2 QV.C15.ModelScpi QV.C15.ModelApt.
+Require Import QV.C15.ProofsIB QV.C15.ProofsUsbtmc QV.C15.ProofsT2 QV.C15.ProofsScpi QV.C15.ProofsApt.
+Open Scope N_scope.
+
+(* ============================== NKT Interbus ========================================== *)
+
+(* decode (encode m) = m for every valid message: any register byte, any data of length <= 240
+   including 0x0A 0x0D 0x5E, also when those values occur in the CRC bytes *)
+Theorem C15_ib_roundtrip : forall m, valid_msg m -> exists f, ib_encode m = Ok f /\ ib_decode f = Ok m.
+Proof. exact ib_roundtrip. Qed.
+Print Assumptions C15_ib_roundtrip.
+
+(* framing: SOT, then a body free of 0x0A/0x0D, then EOT *)
+Theorem C15_ib_framing : forall m, valid_msg m ->
+  exists body, ib_encode m = Ok (13 :: body ++ [10]) /\ Forall (fun b => b <> 10 /\ b <> 13) body.
+Proof. exact ib_framing. Qed.
+Print Assumptions C15_ib_framing.
+
+(* ... so read_until(b"\n") on the wire cuts exactly at EOT, whatever follows *)
+Theorem C15_ib_framing_cut : forall m rest, valid_msg m ->
+  exists f, ib_encode m = Ok f /\ cut_nl (f ++ rest) = Some (f, rest).
+Proof. exact ib_cut. Qed.
+Print Assumptions C15_ib_framing_cut.
+
+(* the three sequential bytes.replace passes equal the byte-wise escape, and the three unescape
+   passes invert it, for every byte string *)
+Theorem C15_ib_escape_spec : forall l, escape l = escape_spec l.
+Proof. exact escape_is_spec. Qed.
+Print Assumptions C15_ib_escape_spec.
+Theorem C15_ib_escape_inverse : forall l, unescape (escape l) = l.
+Proof. exact unescape_escape. Qed.
+Print Assumptions C15_ib_escape_inverse.
+
+(* CRC of body ++ big-endian CRC is 0, for every body (unbounded; the step from the 16-bit register
+   state is a sweep over all 65 536 states, crc_append_sweep_ok) *)
+Theorem C15_ib_crc_append : forall p, crc_of (p ++ [crc_of p / 256; crc_of p mod 256]) = 0.
+Proof. exact crc_append. Qed.
+Print Assumptions C15_ib_crc_append.
+
+(* a frame that is too short, lacks SOT or EOT, or whose CRC does not verify is a ValueError *)
+Theorem C15_ib_reject : forall e,
+  (length e < 8)%nat \/ hd 0 e <> 13 \/ last e 0 <> 10 \/
+  crc_of (unescape (removelast (tl e))) <> 0 \/ (length (unescape (removelast (tl e))) < 6)%nat ->
+  ib_decode e = Err EValue.
+Proof. exact ib_reject. Qed.
+Print Assumptions C15_ib_reject.
+
+(* whatever is accepted has SOT/EOT, a verifying CRC, and exactly the returned fields *)
+Theorem C15_ib_decode_sound : forall e m, ib_decode e = Ok m ->
+  exists body c1 c2,
+    e = 13 :: body ++ [10] /\ (8 <= length e)%nat /\ crc_of (unescape body) = 0 /\
+    unescape body = [m_dest m; m_src m; m_type m; m_reg m] ++ m_data m ++ [c1; c2] /\ m_type m <= 9.
+Proof. exact ib_decode_sound. Qed.
+Print Assumptions C15_ib_decode_sound.
+
+(* _request_response: a returned response mirrors the request's addresses and is one of the frames
+   actually read; for every script of reads (timeouts, junk, stale replies ...) *)
+Theorem C15_ib_match : forall toggle dst mt reg data script t w m,
+  request_response toggle dst mt reg data script = (t, w, Ok m) ->
+  m_src m = dst /\ m_dest m = 161 + next_toggle toggle /\
+  exists f, In (RdBytes f) script /\ ib_decode f = Ok m.
+Proof. exact rr_match. Qed.
+Print Assumptions C15_ib_match.
+
+(* bounded retries: the request is written once plus at most MAX_RETRY_COUNT times, always the same
+   frame; nothing is written for an invalid request; the source toggle flips *)
+Theorem C15_ib_retry_bound : forall toggle dst mt reg data script t w r,
+  request_response toggle dst mt reg data script = (t, w, r) ->
+  t = next_toggle toggle /\
+  ((w = [] /\ r = Err EValue /\ ib_encode (mkmsg dst (161 + next_toggle toggle) mt reg data) = Err EValue) \/
+   exists req k, ib_encode (mkmsg dst (161 + next_toggle toggle) mt reg data) = Ok req /\
+                 w = req :: repeat req k /\ (k <= MAX_RETRY)%nat).
+Proof. exact rr_bounded. Qed.
+Print Assumptions C15_ib_retry_bound.
+
+(* at most MAX_RETRY_COUNT+1 reads are ever looked at, and they always suffice for a verdict *)
+Theorem C15_ib_read_bound : forall toggle dst mt reg data s1 s2,
+  length s1 = S MAX_RETRY ->
+  request_response toggle dst mt reg data (s1 ++ s2) = request_response toggle dst mt reg data s1 /\
+  snd (request_response toggle dst mt reg data s1) <> Err EExhausted.
+Proof. exact rr_reads. Qed.
+Print Assumptions C15_ib_read_bound.
+
+Theorem C15_ib_toggle : forall t, t < 2 -> next_toggle t = 1 - t /\ next_toggle (next_toggle t) = t.
+Proof. exact next_toggle_alternates. Qed.
+Print Assumptions C15_ib_toggle.
+
+(* ============================== USBTMC ================================================= *)
+
+(* write_raw: for every non-empty data, every max_transfer_size >= 1 (below 2^32) and every start
+   tag, the reference device (MsgID 1, bTag = successor of the previous one and never 0, bTagInverse,
+   little-endian TransferSize, reserved bytes 0, zero alignment bytes up to a multiple of 4, EOM on
+   the last transfer only) reassembles exactly data; all transfers are 4-byte aligned *)
+Theorem C15_usbtmc_out : forall data mts tag,
+  (1 <= mts)%nat -> N.of_nat mts < 4294967296 -> data <> [] -> tag <= 255 ->
+  exists ts t', write_raw data mts tag = Some (ts, t') /\ dev_recv tag ts = Some (data, t') /\
+                1 <= t' <= 255 /\ Forall (fun tr => (length tr mod 4 = 0)%nat) ts.
+Proof. exact write_raw_ok. Qed.
+Print Assumptions C15_usbtmc_out.
+
+Theorem C15_usbtmc_out_empty : forall mts tag, write_raw [] mts tag = Some ([], tag).
+Proof. exact write_raw_empty. Qed.
+Print Assumptions C15_usbtmc_out_empty.
+
+(* the tag is always in 1..255, 255 is followed by 1 *)
+Theorem C15_usbtmc_tag : forall t, 1 <= next_tag t <= 255.
+Proof. exact next_tag_range. Qed.
+Print Assumptions C15_usbtmc_tag.
+Theorem C15_usbtmc_tag_wrap : next_tag 255 = 1 /\ forall t, t < 255 -> next_tag t = t + 1.
+Proof. exact (conj next_tag_wrap next_tag_succ). Qed.
+Print Assumptions C15_usbtmc_tag_wrap.
+
+(* read_raw(-1): for every device message cut into any non-empty sequence of conforming Bulk-IN
+   transfers (any chunk sizes including 0, any alignment bytes, EOM on the last), the value returned
+   is the concatenation; one request per transfer with consecutive tags; later transfers untouched *)
+Theorem C15_usbtmc_in : forall mts tag cs extra,
+  cs <> [] -> Forall (fun c => len (chunk_data c) < 4294967296) cs ->
+  read_raw (-1) mts tag (dev_script cs ++ extra) =
+    mk_rd (req_seq tag mts (length cs)) (Nat.iter (length cs) next_tag tag)
+          (Ok (concat (map chunk_data cs))).
+Proof. exact read_raw_conforming. Qed.
+Print Assumptions C15_usbtmc_in.
+
+(* ============================== PicoQuant T2 ============================================ *)
+
+Theorem C15_t2_split : forall a ovf b,
+  t2_decode ovf (a ++ b) =
+    let '(o1, e1) := t2_decode ovf a in let '(o2, e2) := t2_decode o1 b in (o2, e1 ++ e2).
+Proof. exact t2_decode_app. Qed.
+Print Assumptions C15_t2_split.
+
+(* any batching (including empty batches) = decoding the whole stream at once *)
+Theorem C15_t2_batches : forall bs ovf,
+  t2_decode ovf (concat bs) = let '(o, es) := t2_batches ovf bs in (o, concat es).
+Proof. exact t2_batches_concat. Qed.
+Print Assumptions C15_t2_batches.
+
+(* each non-overflow record yields exactly one event: type = bits 31..25, timestamp =
+   (ovf + sum of earlier overflow increments) * 2^25 + tag, arithmetic mod 2^64 *)
+Theorem C15_t2_timestamp : forall pre r post ovf, ovf < W64 -> is_ovf r = false ->
+  snd (t2_decode ovf (pre ++ r :: post)) =
+    snd (t2_decode ovf pre) ++
+    (rec_type r, (((ovf + ovf_sum pre) mod W64) * PERIOD + rec_tag r) mod W64) ::
+    snd (t2_decode ((ovf + ovf_sum pre) mod W64) post).
+Proof. exact t2_event. Qed.
+Print Assumptions C15_t2_timestamp.
+
+Theorem C15_t2_overflow_silent : forall pre r post ovf, ovf < W64 -> is_ovf r = true ->
+  snd (t2_decode ovf (pre ++ r :: post)) =
+    snd (t2_decode ovf pre) ++ snd (t2_decode ((ovf + ovf_sum pre + rec_tag r) mod W64) post).
+Proof. exact t2_overflow. Qed.
+Print Assumptions C15_t2_overflow_silent.
+
+Theorem C15_t2_counter : forall pre ovf, ovf < W64 -> fst (t2_decode ovf pre) = (ovf + ovf_sum pre) mod W64.
+Proof. exact t2_counter. Qed.
+Print Assumptions C15_t2_counter.
+
+Theorem C15_t2_count : forall recs ovf,
+  length (snd (t2_decode ovf recs)) = length (filter (fun r => negb (is_ovf r)) recs).
+Proof. exact t2_count. Qed.
+Print Assumptions C15_t2_count.
+
+Theorem C15_t2_fields : forall r, r < 4294967296 ->
+  rec_type r = r / PERIOD /\ rec_type r < 128 /\ rec_tag r = r mod PERIOD /\ r = rec_type r * PERIOD + rec_tag r.
+Proof. exact rec_fields. Qed.
+Print Assumptions C15_t2_fields.
+
+(* ============================== SCPI ==================================================== *)
+
+Theorem C15_scpi_dec_codec : forall nd n, n < 10 ^ N.of_nat nd -> parse_dec (print_pad nd n) = n.
+Proof. exact parse_print. Qed.
+Print Assumptions C15_scpi_dec_codec.
+
+(* all data (below 10^nd bytes), all digit counts 1..9 incl. zero-padded, any terminator, any
+   following bytes: the block is returned unchanged and exactly its bytes are consumed *)
+Theorem C15_scpi_block_roundtrip : forall flag term nd data rest,
+  (1 <= nd <= 9)%nat -> len data < 10 ^ N.of_nat nd ->
+  read_block flag term (encode_block nd data ++ (if flag then term else []) ++ rest) = (Ok data, rest).
+Proof. exact read_block_roundtrip. Qed.
+Print Assumptions C15_scpi_block_roundtrip.
+
+(* data is only ever returned from a well-formed block *)
+Theorem C15_scpi_block_sound : forall flag term s data rest,
+  read_block flag term s = (Ok data, rest) ->
+  exists nd digits,
+    s = [35; 48 + nd] ++ digits ++ data ++ (if flag then term else []) ++ rest /\
+    1 <= nd <= 9 /\ len digits = nd /\ forallb is_digit digits = true /\ len data = parse_dec digits.
+Proof. exact read_block_sound. Qed.
+Print Assumptions C15_scpi_block_sound.
+
+Theorem C15_scpi_block_reject_hash : forall flag term h0 h1 s,
+  h0 <> 35 -> fst (read_block flag term (h0 :: h1 :: s)) = Err EInstr.
+Proof. exact read_block_bad_hash. Qed.
+Print Assumptions C15_scpi_block_reject_hash.
+Theorem C15_scpi_block_reject_count : forall flag term h1 s,
+  is_digit h1 = false \/ h1 = 48 -> fst (read_block flag term (35 :: h1 :: s)) = Err EInstr.
+Proof. exact read_block_bad_count. Qed.
+Print Assumptions C15_scpi_block_reject_count.
+Theorem C15_scpi_block_reject_length : forall flag term nd digits s,
+  1 <= nd <= 9 -> len digits = nd -> forallb is_digit digits = false ->
+  fst (read_block flag term ([35; 48 + nd] ++ digits ++ s)) = Err EInstr.
+Proof. exact read_block_bad_length. Qed.
+Print Assumptions C15_scpi_block_reject_length.
+Theorem C15_scpi_block_reject_tail : forall term nd data tail rest,
+  (1 <= nd <= 9)%nat -> len data < 10 ^ N.of_nat nd -> len tail = len term -> tail <> term ->
+  fst (read_block true term (encode_block nd data ++ tail ++ rest)) = Err EInstr.
+Proof. exact read_block_bad_tail. Qed.
+Print Assumptions C15_scpi_block_reject_tail.
+
+Theorem C15_scpi_ask_writes : forall cmd ct rt r, ascii cmd = true -> fst (ask cmd ct rt r) = [cmd ++ ct].
+Proof. exact ask_writes. Qed.
+Print Assumptions C15_scpi_ask_writes.
+Theorem C15_scpi_ask_ok : forall cmd ct rt body, ascii cmd = true -> rt <> [] -> ascii body = true ->
+  ask cmd ct rt (RMsg (body ++ rt)) = ([cmd ++ ct], Ok body).
+Proof. exact ask_ok. Qed.
+Print Assumptions C15_scpi_ask_ok.
+Theorem C15_scpi_ask_missing_terminator : forall cmd ct rt resp,
+  ascii cmd = true -> (forall b, resp <> b ++ rt) -> ask cmd ct rt (RMsg resp) = ([cmd ++ ct], Err EInstr).
+Proof. exact ask_missing_terminator. Qed.
+Print Assumptions C15_scpi_ask_missing_terminator.
+
+(* ============================== Thorlabs APT ============================================ *)
+
+Theorem C15_apt_header_params : forall id p1 p2 d s,
+  id < 65536 -> p1 < 256 -> p2 < 256 -> d < 256 -> s < 256 ->
+  unpack_params (hdr_params id p1 p2 d s) = Some (id, p1, p2, d, s).
+Proof. exact hdr_params_roundtrip. Qed.
+Print Assumptions C15_apt_header_params.
+Theorem C15_apt_header_data : forall id n d s,
+  id < 65536 -> n < 65536 -> d < 256 -> s < 256 -> unpack_data (hdr_data id n d s) = Some (id, n, d, s).
+Proof. exact hdr_data_roundtrip. Qed.
+Print Assumptions C15_apt_header_data.
+
+Theorem C15_apt_write_data : forall dev host id payload,
+  dev < 256 -> host < 256 -> id < 65536 -> len payload < 65536 ->
+  exists h, write_data_command dev host id payload = h ++ payload /\ length h = 6%nat /\
+            unpack_data h = Some (id, len payload, N.lor dev 128, host).
+Proof. exact write_data_device. Qed.
+Print Assumptions C15_apt_write_data.
+
+Theorem C15_apt_ask_ok : forall expect sizeof src dst payload extra rest,
+  expect < 65536 -> len (payload ++ extra) < 65536 -> len payload = sizeof -> dst < 256 -> src < 256 ->
+  apt_ask false expect sizeof (hdr_data expect (len (payload ++ extra)) dst src ++ (payload ++ extra) ++ rest)
+  = (Ok payload, rest).
+Proof. exact apt_ask_ok. Qed.
+Print Assumptions C15_apt_ask_ok.
+
+(* a data reply with an unexpected message id is an error *)
+Theorem C15_apt_ask_wrong_id : forall expect sizeof rid n dst src data rest,
+  expect <> rid -> rid < 65536 -> len data = n -> n < 65536 ->
+  apt_ask false expect sizeof (hdr_data rid n dst src ++ data ++ rest) = (Err EInstr, rest).
+Proof. exact apt_ask_wrong_id. Qed.
+Print Assumptions C15_apt_ask_wrong_id.
+
+Theorem C15_apt_ask_sound : forall expect sizeof s out rest,
+  apt_ask false expect sizeof s = (Ok out, rest) ->
+  exists a b l0 l1 d sr data,
+    s = [a; b; l0; l1; d; sr] ++ data ++ rest /\ dec16 a b = expect /\ len data = dec16 l0 l1 /\
+    sizeof <= len data /\ out = firstn (N.to_nat sizeof) data.
+Proof. exact apt_ask_sound. Qed.
+Print Assumptions C15_apt_ask_sound.
+
+(* ============================== non-vacuity ============================================= *)
+(* a message whose data and CRC both contain reserved bytes: data 0x5E 0x0A 0x0D, CRC = 0x5E?? *)
+Example C15_ex_ib_valid : valid_msg (mkmsg 15 161 5 94 [94; 10; 13]).
+Proof. unfold valid_msg. cbn. lia. Qed.
+Example C15_ex_ib_encode :
+  ib_encode (mkmsg 15 161 5 94 [94; 10; 13]) =
+    Ok [13; 15; 161; 5; 94; 158; 94; 158; 94; 74; 94; 77; 27; 41; 10] /\
+  ib_decode [13; 15; 161; 5; 94; 158; 94; 158; 94; 74; 94; 77; 27; 41; 10] = Ok (mkmsg 15 161 5 94 [94; 10; 13]).
+Proof. vm_compute. split; reflexivity. Qed.
+(* reserved byte inside the CRC: body 01 A1 04 00 00 has CRC 0x5E.. or ..0x0A etc. is exercised by the harness;
+   here: a corrupted CRC byte is rejected, and so is a reply to somebody else *)
+Example C15_ex_ib_reject :
+  ib_decode [13; 15; 161; 5; 94; 158; 94; 158; 94; 74; 94; 77; 27; 42; 10] = Err EValue.
+Proof. vm_compute. reflexivity. Qed.
+Example C15_ex_ib_rr :
+  let good := [13; 161; 15; 8; 97; 103; 97; 107; 10] in
+  request_response 1 15 4 97 [] [RdTimeout; RdBytes [13; 1; 2; 10]; RdBytes good] =
+    (0, [[13; 15; 161; 4; 97; 73; 156; 10]; [13; 15; 161; 4; 97; 73; 156; 10]; [13; 15; 161; 4; 97; 73; 156; 10]],
+     ib_decode good) /\ exists m, ib_decode good = Ok m.
+Proof. vm_compute. split; [reflexivity|eexists; reflexivity]. Qed.
+
+Example C15_ex_usbtmc_out :
+  write_raw [104; 101; 108; 108; 111; 32; 119] 5 254 =
+    Some ([[1; 255; 0; 0; 5; 0; 0; 0; 0; 0; 0; 0; 104; 101; 108; 108; 111; 0; 0; 0];
+           [1; 1; 254; 0; 2; 0; 0; 0; 1; 0; 0; 0; 32; 119; 0; 0]], 1).
+Proof. vm_compute. reflexivity. Qed.
+Example C15_ex_usbtmc_in :
+  rd_res (read_raw (-1) 4 255 (dev_script [([1; 2; 3], [0], 1, 254); ([], [], 2, 253); ([4], [9; 9; 9], 3, 252)]))
+  = Ok [1; 2; 3; 4].
+Proof. vm_compute. reflexivity. Qed.
+
+(* overflow increment 3, counter near the 64-bit wrap of ovf * 2^25 *)
+Example C15_ex_t2 :
+  t2_batches 549755813887 [[33554437]; []; [4261412867; 2181038081]] =
+    (549755813890, [[(1, 18446744073675997189)]; []; [(65, 67108865)]]).
+Proof. vm_compute. reflexivity. Qed.
+
+Example C15_ex_scpi_block :
+  read_block true [10] (encode_block 3 [35; 48; 10] ++ [10] ++ [7]) = (Ok [35; 48; 10], [7]) /\
+  encode_block 3 [35; 48; 10] = [35; 51; 48; 48; 51; 35; 48; 10] /\
+  fst (read_block true [10] [35; 50; 48; 48; 51; 35; 48; 10; 10; 7]) = Err EInstr.
+Proof. vm_compute. repeat split; reflexivity. Qed.
+Example C15_ex_scpi_ask :
+  ask [42; 73; 68; 78; 63] [10] [13; 10] (RMsg [65; 66; 13; 10]) = ([[42; 73; 68; 78; 63; 10]], Ok [65; 66]) /\
+  ask [42; 73; 68; 78; 63] [10] [13; 10] (RMsg [65; 66; 10]) = ([[42; 73; 68; 78; 63; 10]], Err EInstr).
+Proof. vm_compute. split; reflexivity. Qed.
+
+Example C15_ex_apt :
+  write_data_command 80 1 1107 [1; 0; 16; 39; 0; 0] = [83; 4; 6; 0; 208; 1; 1; 0; 16; 39; 0; 0] /\
+  apt_ask false 1169 14 ([145; 4; 14; 0; 129; 80] ++ [1; 0; 1; 2; 3; 4; 5; 6; 7; 8; 9; 10; 11; 12] ++ [99])
+    = (Ok [1; 0; 1; 2; 3; 4; 5; 6; 7; 8; 9; 10; 11; 12], [99]) /\
+  apt_ask false 1169 14 ([146; 4; 14; 0; 129; 80] ++ [1; 0; 1; 2; 3; 4; 5; 6; 7; 8; 9; 10; 11; 12] ++ [99])
+    = (Err EInstr, [99]).
+Proof. vm_compute. repeat split; reflexivity. Qed.
